@@ -52,9 +52,11 @@ struct Cfg {
     bool local;
     int depth; // messages explored for this configuration
     const std::vector<std::string>* alpha; // message alphabet explored for this configuration
+    std::string ip{};  // empty: 127.0.0.1 if local, 8.7.6.5 otherwise. `local` is the harness's own statement about the address (only loopback counts as local)
+    std::string Ip() const { return !ip.empty() ? ip : local ? "127.0.0.1" : "8.7.6.5"; }
     std::string Label() const
     {
-        return std::string("CFG:") + pk::ConnTypeName(type) + ":" + PERMS[perm].name + ":blocksonly=" + (blocksonly ? "1" : "0") + ":" + (local ? "local" : "remote");
+        return std::string("CFG:") + pk::ConnTypeName(type) + ":" + PERMS[perm].name + ":blocksonly=" + (blocksonly ? "1" : "0") + ":" + (ip.empty() ? (local ? "local" : "remote") : "addr=" + ip);
     }
     // ---- independent reading of the rules
     bool Protected() const { return perm == 1 || type == ConnectionType::MANUAL; }
@@ -208,7 +210,7 @@ struct World {
         pk::PeerSpec s;
         s.type = cfg->type;
         s.perms = PERMS[cfg->perm].f;
-        s.ip = cfg->local ? "127.0.0.1" : "8.7.6.5";
+        s.ip = cfg->Ip();
         // a feeler is disconnected by the node itself as soon as its version arrives: its messages can only come before that
         s.stage = cfg->type == ConnectionType::FEELER ? pk::Stage::PRE_VERSION : pk::Stage::COMPLETE;
         peer = &net->AddPeer(s);
@@ -370,7 +372,23 @@ int main(int argc, char** argv)
     auto deep_big = [](const Cfg& c) {
         return (c.type == ConnectionType::INBOUND || c.type == ConnectionType::OUTBOUND_FULL_RELAY || c.type == ConnectionType::MANUAL) && c.perm <= 1 && !c.blocksonly && !c.local;
     };
+    // Address classes for the punishable single-message cases: "local" in the property means the node's own machine (loopback);
+    // private, carrier-grade-NAT, unique-local, link-local, onion and I2P peers are other parties and must be discouraged like public ones.
+    struct Addr { const char* ip; bool local; };
+    const Addr ADDRS[] = {
+        {"10.1.2.3", false}, {"192.168.1.5", false}, {"172.16.9.9", false}, {"100.64.1.1", false}, {"169.254.7.7", false}, {"fd00::1", false}, {"fe80::1", false},
+        {"pg6mmjiyjmcrsslvykfwnntlaru7p5svn6y2ymmju6nubxndf4pscryd.onion", false}, {"udhdrtrcetjm5sxzskjyr5ztpeszydbh4dpl3pl4utgqqw2v4jna.b32.i2p", false},
+        {"2001:4860:4860::8888", false}, {"::1", true}, {"127.8.8.8", true},
+    };
+    const std::vector<std::string> A_ADDR = {"block:badconnect", "block:mutated", "headers:badpow"};
+    auto addr_stage = [&](std::vector<ConnectionType> types, std::vector<int> perms) {
+        std::vector<Cfg> v;
+        for (auto t : types) for (int p : perms) for (auto& a : ADDRS) { Cfg c{t, p, false, a.local, 1, &A_ADDR}; c.ip = a.ip; v.push_back(c); }
+        return v;
+    };
     if (!big) {
+        stages.push_back({"address classes (RFC1918 x3, CGNAT, IPv4/IPv6 link-local, ULA, onion, I2P, public IPv6, ::1, 127.8.8.8): 1 message of {block:badconnect, block:mutated, headers:badpow}, {inbound, outbound-full-relay} without permissions",
+                          addr_stage({ConnectionType::INBOUND, ConnectionType::OUTBOUND_FULL_RELAY}, {0})});
         // cheapest, most discriminating stages first: a deadline on a loaded machine then still leaves every oracle clause exercised
         stages.push_back({"all sequences of <= 2 messages, base alphabet, inbound peer without permissions", all(deep_quick, 2, &A_BASE)});
         stages.push_back({"1 message of {block:badconnect, headers:badpow, tx:script, tx:amount}, local address, -blocksonly=0",
@@ -381,6 +399,8 @@ int main(int argc, char** argv)
                           all([&](const Cfg& c) { return !c.local && !c.blocksonly && !deep_quick(c); }, 1, &A_BASE)});
     } else {
         // ordered by value per transition; a deadline ends the run after a completed stage or inside one (exhaustive=false)
+        stages.push_back({"address classes (RFC1918 x3, CGNAT, IPv4/IPv6 link-local, ULA, onion, I2P, public IPv6, ::1, 127.8.8.8): 1 message of {block:badconnect, block:mutated, headers:badpow}, {inbound, outbound-full-relay, manual, block-relay-only, addr-fetch} x {none, noban}",
+                          addr_stage({ConnectionType::INBOUND, ConnectionType::OUTBOUND_FULL_RELAY, ConnectionType::MANUAL, ConnectionType::BLOCK_RELAY, ConnectionType::ADDR_FETCH}, {0, 1})});
         stages.push_back({"1 message of the 4 extra kinds {tx:lowfee, tx:trailing, tx:premature, cmpct:badpow}, all 140 configurations", all([&](const Cfg&) { return true; }, 1, &A_EXTRA)});
         stages.push_back({"all sequences of <= 2 messages, base alphabet, non-local address, -blocksonly=0 (29 configurations: all but the depth-3 ones)",
                           all([&](const Cfg& c) { return !c.local && !c.blocksonly && !deep_big(c); }, 2, &A_BASE)});
@@ -415,6 +435,7 @@ int main(int argc, char** argv)
         arm();
         auto& fs = w.fs;
         for (auto& st : stages) for (auto& c : st.cfgs) { w.cfgs.push_back(c); w.cfgs.back().depth = 99; w.cfgs.back().alpha = &A_FULL; }
+        for (auto& c : addr_stage({TYPES, TYPES + 7}, {0, 1, 2, 3, 4})) { w.cfgs.push_back(c); w.cfgs.back().depth = 99; w.cfgs.back().alpha = &A_FULL; }
         std::ifstream f(vx::ctx().replay);
         std::string line, hist;
         while (std::getline(f, line)) if (line.rfind("history: ", 0) == 0) hist = line.substr(9);
@@ -456,7 +477,8 @@ int main(int argc, char** argv)
     E.rule = "explicit-state search of the real PeerManager (fork per transition). state = (peer configuration, message history) - histories are not merged because "
              "PeerManagerImpl's internals are not observable; transition = one handshake (first event) or one P2P message followed by ProcessMessages/SendMessages "
              "rounds as the message-handler thread runs them; histories end when the node marks the peer for disconnection. configuration space: 7 connection types x "
-             "permissions {none,noban,relay,forcerelay,download} x -blocksonly {0,1} x address {local,non-local} = 140; the space is explored in stages (a configuration that "
+             "permissions {none,noban,relay,forcerelay,download} x -blocksonly {0,1} x address {local 127.0.0.1, non-local 8.7.6.5} = 140, plus an address-class stage "
+             "(12 addresses: private, CGNAT, link-local, ULA, onion, I2P, public IPv6, two loopbacks) for the punishable single messages; the space is explored in stages (a configuration that "
              "appears in two stages has its handshake state counted in both). "
              "stages completed: " + done;
     E.assume("regtest, in-memory LevelDBs, single-threaded node, synchronous validation signals, fixed mock time (no timeouts fire), one peer per history");
@@ -472,6 +494,7 @@ int main(int argc, char** argv)
     E.sample("CFG:outbound-full-relay:none:blocksonly=0:remote | block:badconnect  (disconnected + discouraged)");
     E.sample("CFG:inbound:none:blocksonly=0:local | headers:badpow  (disconnected, not discouraged)");
     E.sample("CFG:manual:none:blocksonly=0:remote | block:mutated  (never punished)");
+    E.sample("CFG:inbound:none:blocksonly=0:addr=192.168.1.5 | headers:badpow  (disconnected + discouraged: a private address is not local)");
     static const char* names[] = {"tx_accepted", "tx_rejected_unpunished", "punished_discouraged", "punished_local_not_discouraged", "protected_spared",
                                   "tx_forbidden_disconnect", "blockchecked_consensus", "blockchecked_invalid_header", "valid_block_connected", "orphan_kept",
                                   "orphan_reconsidered_rejected", "cmpct_invalid_not_punished", "cmpct_badpow_punished", "noncontinuous_punished", "ignored_connection_msgs",
